@@ -27,9 +27,12 @@ class C15(Prop):
     CASE_HEADER = ("From Boreal Require Import Base.Prelude Base.Res Model.Eval Spec.CondSem Model.EvalCost Model.Scanner "
                    "Spec.RuleSetSpec Model.ScannerCase.")
     HARNESS_BINS = ("c15",)
-    KF = {1: "C05-global-refs-ordinary", 2: "C15-timeout-unvalidated-globals"}
+    KF = {1: "C05-global-refs-ordinary", 2: "C15-timeout-unvalidated-globals",
+          3: "C15-noscan-timeout-flush-order"}
     RULE = ("for each generated (rule set, input, configuration: full matches or not, include_not_matched or not, list "
-            "or callback API with RULE_NO_MATCH events or not): the uninterrupted run with the number of timeout checks "
+            "or callback API with RULE_NO_MATCH / MODULE_IMPORT / STRING_REACHED_MATCH_LIMIT events or not, imported "
+            "modules, string_max_nb_matches 1 / 2 / default, direct memory or 2-3 regions in fast / single_pass "
+            "mode): the uninterrupted run with the number of timeout checks "
             "(hook verif_timeout), then EVERY callback-abort point k = 1..#events+1 and EVERY timeout point j = "
             "1..#checks+1 (capped at 80 per case), each followed by a normal scan with the same scanner.  The model "
             "(Model/Scanner.v with Model/EvalCost.v) must predict error kind, returned rules, delivered events and the "
@@ -39,7 +42,8 @@ class C15(Prop):
                "(the j-th check_timeout call fires; calls are counted)", "vlib/ruleset.py + vlib/cond.py",
                "number of Aho-Corasick hits computed by Python for the <= 4-byte strings of the pool"]
     ASSUMPTIONS = ["ScanStatistics events (delivered even after an abort) are left out of the event sequences",
-                   "module import events and StringReachedMatchLimit events are not generated"]
+                   "the order of Aho-Corasick hits and the hits that reach the match limit are computed by "
+                   "vlib/ruleset.simulate_strings for plain strings of at most 4 bytes"]
 
     def budget(self, tier):
         return 60 if tier == "quick" else 1200
@@ -47,8 +51,27 @@ class C15(Prop):
     def gen_case(self, rng):
         rs = ruleset.gen_ruleset(rng, max_rules=5, depth=2, poison=30)
         mem = rng.choice(ruleset.MEMS)
-        return {"rs": rs, "mem": mem.hex(), "full": rng.chance(1, 2), "nm": rng.chance(1, 3), "cb": rng.chance(1, 2),
-                "ev_nomatch": rng.chance(1, 2)}
+        case = {"rs": rs, "mem": mem.hex(), "full": rng.chance(1, 2), "nm": rng.chance(1, 3), "cb": rng.chance(1, 2),
+                "ev_nomatch": rng.chance(1, 2),
+                "imports": rng.choice([[], [], ["math"], ["time", "math"], ["math", "time"]]),
+                "ev_import": rng.chance(1, 2), "ev_limit": rng.chance(1, 2),
+                "limit": rng.choice([1000, 1000, 1, 1, 2]), "frag": None}
+        if rng.chance(1, 3) and len(mem) >= 2:
+            cuts = sorted(set(rng.range(1, len(mem) - 1) for _ in range(rng.range(1, 2))))
+            case["frag"] = {"mode": rng.choice(["fast", "single_pass"]), "cuts": cuts, "gap": rng.choice([0, 0, 50])}
+        return case
+
+    @staticmethod
+    def regions_of(case):
+        mem = bytes.fromhex(case["mem"])
+        if not case.get("frag"):
+            return None
+        out, prev, base = [], 0, 0
+        for c in case["frag"]["cuts"] + [len(mem)]:
+            out.append((base, mem[prev:c]))
+            base += (c - prev) + case["frag"]["gap"]
+            prev = c
+        return out
 
     def generate(self, ctx, rng, n):
         return [self.gen_case(rng.fork("c%d" % i)) for i in range(n)]
@@ -63,10 +86,17 @@ class C15(Prop):
         return out
 
     def harness_case(self, case):
-        ev = 1 | (2 if case["ev_nomatch"] else 0)
-        return {"rules": ruleset.harness_rules(case["rs"]),
-                "params": {"compute_full_matches": case["full"], "include_not_matched": case["nm"], "events": ev},
-                "api": "callback" if case["cb"] else "list", "input": {"mem": case["mem"]}, "max_points": 80}
+        ev = 1 | (2 if case["ev_nomatch"] else 0) | (4 if case.get("ev_import") else 0) | (16 if case.get("ev_limit") else 0)
+        params = {"compute_full_matches": case["full"], "include_not_matched": case["nm"], "events": ev,
+                  "string_max_nb_matches": case.get("limit", 1000)}
+        regs = self.regions_of(case)
+        if regs is None:
+            inp = {"mem": case["mem"]}
+        else:
+            params["mode"] = case["frag"]["mode"]
+            inp = {"regions": [{"start": b, "hex": m.hex()} for b, m in regs]}
+        return {"rules": ruleset.harness_rules(case["rs"], case.get("imports", ())), "params": params,
+                "api": "callback" if case["cb"] else "list", "input": inp, "max_points": 80}
 
     # each case expands into one evaluation per interruption point
     def execute(self, ctx, cases):
@@ -86,9 +116,16 @@ class C15(Prop):
         full = g_outcome(rs, out["full"])
         if full is None:
             return (False, False, 0)
-        cfg = g_cfg(case["full"], case["nm"], case["cb"], True, case["ev_nomatch"])
+        regs = self.regions_of(case)
+        direct = regs is None
+        cfg = g_cfg(case["full"], case["nm"], case["cb"], True, case["ev_nomatch"], direct=direct,
+                    frag_noscan=(not direct and case["frag"]["mode"] == "fast"),
+                    ev_import=case.get("ev_import", False), ev_limit=case.get("ev_limit", False))
         sc = ruleset.g_scanner(rs)
-        inp = ruleset.g_inputs(rs, mem, ac_checks=ac_hits(rs, mem))
+        inp = ruleset.g_inputs(rs, mem, direct=direct, regions=regs, limit=case.get("limit", 1000),
+                               imports=case.get("imports", ()))
+        ctx.count("input=%s" % ("direct" if direct else case["frag"]["mode"]))
+        ctx.count("imports=%d limit=%s" % (len(case.get("imports", ())), case.get("limit", 1000)))
         terms = []
         for r in out["runs"]:
             o = g_outcome(rs, r["out"])
@@ -115,14 +152,18 @@ class C15(Prop):
         return None
 
     def sample(self, case, out):
-        return {"rules": [(x["ns"], x["src"]) for x in ruleset.harness_rules(case["rs"])], "mem": case["mem"],
-                "config": {k: case[k] for k in ("full", "nm", "cb", "ev_nomatch")},
+        return {"rules": [(x["ns"], x["src"]) for x in ruleset.harness_rules(case["rs"], case.get("imports", ()))],
+                "mem": case["mem"],
+                "config": {k: case.get(k) for k in ("full", "nm", "cb", "ev_nomatch", "ev_import", "ev_limit", "limit",
+                                                   "imports", "frag")},
                 "impl_full": {"checks": (out or {}).get("full", {}).get("checks"),
                               "rules": [(r["name"], r["matched"]) for r in (out or {}).get("full", {}).get("rules", [])],
-                              "events": [(e["ev"], e["rule"]["name"]) for e in (out or {}).get("full", {}).get("events", [])]},
+                              "events": [(e["ev"], e.get("rule", {}).get("name") if isinstance(e.get("rule"), dict) else e.get("module") or e.get("string"))
+                                         for e in (out or {}).get("full", {}).get("events", [])]},
                 "points": [(r["kind"], r["at"], r["out"].get("error"),
                             [(x["name"], x["matched"]) for x in r["out"].get("rules", [])],
-                            [(e["ev"], e["rule"]["name"]) for e in r["out"].get("events", [])]) for r in (out or {}).get("runs", [])[:12]]}
+                            [(e["ev"], e.get("rule", {}).get("name") if isinstance(e.get("rule"), dict) else e.get("module") or e.get("string"))
+                             for e in r["out"].get("events", [])]) for r in (out or {}).get("runs", [])[:12]]}
 
 
 PROP = C15()
